@@ -16,7 +16,7 @@ common = f"""# Task
 You work ONLY inside this directory: `{wt}` (a scratch git worktree of the Rust project gtker/wow_messages: a code generator
 `wow_message_parser` that reads the `.wowm` protocol definitions and prints Rust codecs, docs, a Wireshark dissector and a JSON IR;
 plus the generated+hand-written crates `wow_login_messages`, `wow_world_base`, `wow_world_messages`).
-Do not read or write anything under `/repo` or `/verif`. No network. Build with
+Do not read or write anything under `/repo` or `/verif`. Never use `git stash` (the stash is shared between all worktrees of the repository; use `git diff > file` and `git apply -R` instead). No network. Build with
 `CARGO_TARGET_DIR={wt}/target cargo ... --offline -j 4` (other jobs share the machine).
 The wow_items / wow_spells data files are emptied in this snapshot; ignore those crates.
 Note: running the generator binary (`cargo run -p wow_message_parser`) does not complete on this snapshot; if you change a printer
